@@ -123,10 +123,16 @@ def coq_project():
 
 
 def gen_tables():
-    """Run the translator. Returns (ok, log)."""
-    rc, out, err = sh([sys.executable, os.path.join(VERIF, "tools", "gen_tables.py"),
-                       "--repo", REPO, "--out", os.path.join(COQ, "gen")], timeout=120)
-    return rc == 0, out + err
+    """Run every translator tools/gen_*.py (each writes files under coq/gen/). Returns (ok, log)."""
+    tdir = os.path.join(VERIF, "tools")
+    ok, log = True, ""
+    for f in sorted(os.listdir(tdir)):
+        if f.startswith("gen_") and f.endswith(".py") and f != "gen_manifest.py":
+            rc, out, err = sh([sys.executable, os.path.join(tdir, f),
+                               "--repo", REPO, "--out", os.path.join(COQ, "gen")], timeout=120)
+            ok = ok and rc == 0
+            log += out + err
+    return ok, log
 
 
 def coq_make(targets, force=(), timeout=1500):
